@@ -89,9 +89,15 @@ def handlers : List (String × Handler) := [
   ("construct", fun j => do
     let gd ← parseGData (← j.getObjVal? "gd")
     let meas ← (← getArr j "meas").toList.mapM parseOptVals
+    -- measurements that were parsed from a dataset: the remembered number of values is gone
+    let measParsed ← match j.getObjVal? "meas_parsed" with
+      | .ok v => do (← v.getArr?).toList.mapM parseOptVals
+      | .error _ => pure []
+    let items : List (MeasEnc Int) := meas.map (encodeMeas id) ++
+      measParsed.map (fun vals => { encodeMeas id vals with numberOfValues := none })
     let r : Except ErrKind Int := match construct (← getStr j "gtype") finiteTok (← getBool j "double") id gd with
       | .error e => .error e
-      | .ok g => match Ann.mapE (fun vals => checkMeas (encodeMeas id vals) g.enc.numAnn) meas with
+      | .ok g => match Ann.mapE (fun m => checkMeas m g.enc.numAnn) items with
         | .error e => .error e
         | .ok _ => match g.cache with
           | some (ct, _) => .ok ct
